@@ -755,6 +755,10 @@ class Helpers:
             out["stage"] = "_transform_dst"
             pred = [PV.tok("slot", d, s) for d in range(len(frame.days)) for s in range(24)]
             tf = Function(self.tdst.node, genv, it)
+            if [p_ for p_ in self.tdst.params][1:2] not in (["dst_indices"], ["dst_idx"], ["indices"]):
+                # the helpers' protocol (prediction, (synthesised slots, merged slots)) is what this analysis models; another interface
+                # is not judged, it stops the analysis
+                raise AnalysisError(f"_transform_dst no longer takes the DST slot indices as its second argument ({self.tdst.params}): the clock-normalisation protocol changed, the analysis must be updated")
             res = tf(pred, dst)
             out["result"] = list(res)
             out["stage"] = "done"
